@@ -740,6 +740,49 @@ func serveUDPWild(slowMs int) string {
 	send(b, "/echo", 0xB1, 3001) // arrives at the other local address meanwhile
 	gb := count(b, 1, time.Second)
 	ga := count(a, 2, time.Duration(3*slowMs)*time.Millisecond+time.Second)
+	// a server-initiated exchange with a third endpoint C on 127.0.0.1 (Server.NewConn, no local address given: the
+	// connection of a wildcard listener); the last datagram the server received came in at 127.0.0.2.  C answers to the
+	// address the request came from; the answer must reach the connection NewConn returned.
+	srvInit := 0
+	if c, err := net.ListenUDP("udp4", &net.UDPAddr{IP: net.IPv4(127, 0, 0, 1)}); err == nil {
+		defer c.Close()
+		send(b, "/echo", 0xB2, 3002) // once more at 127.0.0.2, so that it is the latest destination address
+		_ = count(b, 1, time.Second)
+		go func() {
+			buf := make([]byte, 2048)
+			_ = c.SetReadDeadline(time.Now().Add(2 * time.Second))
+			n, from, err := c.ReadFromUDP(buf)
+			if err != nil {
+				return
+			}
+			m := pool.NewMessage(context.Background())
+			if _, err := m.UnmarshalWithDecoder(udpcoder.DefaultCoder, buf[:n]); err != nil {
+				return
+			}
+			r := pool.NewMessage(context.Background())
+			r.SetCode(codes.Content)
+			r.SetToken(m.Token())
+			r.SetType(message.Acknowledgement)
+			r.SetMessageID(m.MessageID())
+			r.SetContentFormat(message.TextPlain)
+			r.SetBody(bytes.NewReader([]byte("from-c")))
+			bs, _ := r.MarshalWithEncoder(udpcoder.DefaultCoder)
+			_, _ = c.WriteToUDP(bs, from)
+		}()
+		if cc, err := s.NewConn(c.LocalAddr().(*net.UDPAddr)); err == nil {
+			ctx, cancel := context.WithTimeout(context.Background(), time.Second)
+			resp, err := cc.Get(ctx, "/c")
+			cancel()
+			if err == nil {
+				if body, _ := resp.ReadBody(); string(body) == "from-c" {
+					srvInit = 1
+				}
+				cc.ReleaseMessage(resp)
+			}
+		}
+	} else {
+		srvInit = 1 // (no second socket: nothing to observe)
+	}
 	s.Stop()
 	serving := 0
 	select {
@@ -747,7 +790,7 @@ func serveUDPWild(slowMs int) string {
 		serving = 1
 	case <-time.After(2 * time.Second):
 	}
-	return fmt.Sprintf("wild a %d/2 b %d/1 stopped %d", ga, gb, serving)
+	return fmt.Sprintf("wild a %d/2 b %d/1 stopped %d srvinit %d", ga, gb, serving, srvInit)
 }
 
 func serveUDPBacklog(slowMs, burst int) string {
